@@ -31,8 +31,8 @@ fn size_pairs(tier: Tier) -> Vec<(usize, usize)> {
     let sz = sizes(tier);
     let mut v: Vec<(usize, usize)> = sz.iter().flat_map(|&w| sz.iter().map(move |&h| (w, h))).collect();
     let extra: &[(usize, usize)] = match tier {
-        Tier::Quick => &[(128, 2), (2, 128), (257, 1), (1, 257), (132, 4), (65, 3), (129, 2), (96, 80), (1280, 54)],
-        Tier::Thorough => &[(127, 2), (128, 2), (129, 2), (2, 127), (2, 128), (2, 129), (255, 4), (256, 4), (257, 1), (1, 257), (4, 256), (132, 4), (320, 8), (8, 320), (100, 100), (65, 3), (129, 2), (96, 80), (192, 6), (260, 12), (512, 2), (1280, 54), (720, 92), (300, 220), (513, 513)],
+        Tier::Quick => &[(128, 2), (2, 128), (257, 1), (1, 257), (132, 4), (65, 3), (129, 2), (96, 80), (1280, 54), (65, 64), (100, 41)],
+        Tier::Thorough => &[(127, 2), (128, 2), (129, 2), (2, 127), (2, 128), (2, 129), (255, 4), (256, 4), (257, 1), (1, 257), (4, 256), (132, 4), (320, 8), (8, 320), (100, 100), (65, 3), (129, 2), (96, 80), (192, 6), (260, 12), (512, 2), (1280, 54), (720, 92), (300, 220), (513, 513), (65, 64), (100, 41)],
     };
     v.extend_from_slice(extra);
     v
@@ -47,7 +47,26 @@ fn meta(k: u8, n: u8, ss: (u8, u8)) -> YuvConfig {
     }
 }
 
+thread_local! {
+    /// Content of the YUV test frames: 0 = position-coded (every sample differs from its neighbours),
+    /// 1 = every row flat (depends on y only), 2 = every column flat, 3 = one solid colour.
+    static CONTENT_MODE: std::cell::Cell<u8> = const { std::cell::Cell::new(0) };
+}
+
+fn with_content<R>(mode: u8, f: impl FnOnce() -> R) -> R {
+    let prev = CONTENT_MODE.with(|m| m.replace(mode));
+    let r = f();
+    CONTENT_MODE.with(|m| m.set(prev));
+    r
+}
+
 fn code(plane: usize, x: usize, y: usize, max: u16) -> u16 {
+    let (x, y) = match CONTENT_MODE.with(|m| m.get()) {
+        1 => (0, y),
+        2 => (x, 0),
+        3 => (0, 0),
+        _ => (x, y),
+    };
     // linear in the low coordinate bits (neighbours, rows and columns differ even at 8 bit) plus terms in
     // the higher bits, so that the content is not periodic in x or y with a period of 2^n / 256 / 1024
     // columns or rows: a shift by any such distance within the sizes used changes the sample
@@ -113,9 +132,11 @@ pub struct DecCase {
     pub ss: (u8, u8),
     pub wide: bool,
     pub k: u8,
+    /// content mode of the frame (see CONTENT_MODE)
+    pub mode: u8,
 }
 fn dec_json(c: &DecCase) -> Value {
-    json!({"kind":"c11dec","w":c.w,"h":c.h,"ss":[c.ss.0,c.ss.1],"u16":c.wide,"meta":c.k})
+    json!({"kind":"c11dec","w":c.w,"h":c.h,"ss":[c.ss.0,c.ss.1],"u16":c.wide,"meta":c.k,"content":c.mode})
 }
 
 fn pads(tier: Tier, w: usize, h: usize) -> Vec<(usize, usize)> {
@@ -139,6 +160,10 @@ fn pads(tier: Tier, w: usize, h: usize) -> Vec<(usize, usize)> {
 }
 
 fn check_decode<T: Pixel>(acc: &mut Acc, idx: u64, tier: Tier, c: &DecCase, memo: &mut HashMap<(u8, u8, bool, Target, [u16; 3]), [u32; 3]>) {
+    with_content(c.mode, || check_decode_inner::<T>(acc, idx, tier, c, memo))
+}
+
+fn check_decode_inner<T: Pixel>(acc: &mut Acc, idx: u64, tier: Tier, c: &DecCase, memo: &mut HashMap<(u8, u8, bool, Target, [u16; 3]), [u32; 3]>) {
     let n = if c.wide { 10 } else { 8 };
     let cfg = meta(c.k, n, c.ss);
     let max = ((1u32 << n) - 1) as u16;
@@ -404,10 +429,33 @@ fn encode<T: Pixel>(src: u8, data: &[[f32; 3]], w: usize, h: usize, cfg: YuvConf
 }
 
 fn check_encode<T: Pixel>(acc: &mut Acc, idx: u64, c: &EncCase) {
+    let data: Vec<[f32; 3]> = (0..c.w * c.h).map(fcontent).collect();
+    let before = acc.viols.len();
+    check_encode_with::<T>(acc, idx, c, &data);
+    if acc.viols.len() > before || c.w * c.h > 4096 {
+        return;
+    }
+    // the same relations on saturated content: the corners of the RGB cube and two out-of-range
+    // pixels, placed so that every corner is the top-left, the last-row and an inner pixel of some
+    // chroma block (range clamps and end-of-range shortcuts of the chroma path see their extremes)
+    const CORNERS: [[f32; 3]; 10] = [
+        [0.0, 0.0, 0.0], [1.0, 0.0, 0.0], [0.0, 1.0, 0.0], [0.0, 0.0, 1.0], [1.0, 1.0, 0.0], [0.0, 1.0, 1.0], [1.0, 0.0, 1.0], [1.0, 1.0, 1.0],
+        [1.5, -0.5, 0.5], [-0.5, 1.5, 1.0],
+    ];
+    let (bw, bh) = (1usize << c.ss.0, 1usize << c.ss.1);
+    let data2: Vec<[f32; 3]> = (0..c.w * c.h)
+        .map(|i| {
+            let (x, y) = (i % c.w, i / c.w);
+            CORNERS[(x / bw + 3 * (y / bh) + 5 * (x % bw) + 7 * (y % bh)) % 10]
+        })
+        .collect();
+    check_encode_with::<T>(acc, idx, c, &data2);
+}
+
+fn check_encode_with<T: Pixel>(acc: &mut Acc, idx: u64, c: &EncCase, data: &[[f32; 3]]) {
     let n = if c.wide { 10 } else { 8 };
     let cfg = meta(c.k, n, c.ss);
     let cfg444 = meta(c.k, n, (0, 0));
-    let data: Vec<[f32; 3]> = (0..c.w * c.h).map(fcontent).collect();
     let fail = |acc: &mut Acc, key: String, detail: String| {
         acc.violation(idx, key, format!("{}x{} ss ({},{}) {} meta {} src {}: {detail}", c.w, c.h, c.ss.0, c.ss.1, if c.wide { "u16" } else { "u8" }, c.k, c.src), enc_json(c));
     };
@@ -952,6 +1000,8 @@ fn conc_pairs(tier: Tier) -> Vec<(HOp, HOp)> {
 /// Run `a` and `b` concurrently `rounds` times each; returns the first result that differs from
 /// its sequential reference as (which, round).
 fn race_pair(a: HOp, b: HOp, ra: &Result<Vec<u32>, String>, rb: &Result<Vec<u32>, String>, rounds: usize) -> Option<(u8, usize)> {
+    // both threads meet at a barrier before EVERY round, so the two calls of a round start together
+    // whatever else the machine is doing (after a mismatch the remaining rounds are barrier-only)
     let barrier = std::sync::Barrier::new(2);
     let stop = std::sync::atomic::AtomicBool::new(false);
     std::thread::scope(|s| {
@@ -959,17 +1009,18 @@ fn race_pair(a: HOp, b: HOp, ra: &Result<Vec<u32>, String>, rb: &Result<Vec<u32>
             let (barrier, stop) = (&barrier, &stop);
             let want = want.clone();
             s.spawn(move || {
-                barrier.wait();
+                let mut bad = None;
                 for k in 0..rounds {
+                    barrier.wait();
                     if stop.load(Ordering::Relaxed) {
-                        break;
+                        continue;
                     }
                     if hist_run(&op) != want {
                         stop.store(true, Ordering::Relaxed);
-                        return Some((which, k));
+                        bad = Some((which, k));
                     }
                 }
-                None
+                bad
             })
         };
         let (ha, hb) = (run(a, ra, 0), run(b, rb, 1));
@@ -1044,8 +1095,28 @@ fn dec_cases(tier: Tier) -> Vec<DecCase> {
                         if tier == Tier::Quick && k != ((w + h) % 4) as u8 && k != ((w + h + 2 * (ss.0 as usize)) % 4 + 1) as u8 % 4 {
                             continue;
                         }
-                        v.push(DecCase { w, h, ss, wide, k });
+                        v.push(DecCase { w, h, ss, wide, k, mode: 0 });
                     }
+                }
+            }
+        }
+    }
+    // structured content (flat rows, flat columns, one solid colour) on a covering set of sizes:
+    // detectors of "uniform" frames or runs see frames that are uniform in one direction only
+    let st: &[usize] = match tier {
+        Tier::Quick => &[2, 3, 8, 16, 33, 64],
+        Tier::Thorough => &[2, 3, 4, 7, 8, 16, 17, 32, 33, 63, 64],
+    };
+    let mut shapes: Vec<(usize, usize)> = st.iter().flat_map(|&w| st.iter().map(move |&h| (w, h))).collect();
+    shapes.extend([(128, 2), (2, 128), (257, 2), (96, 80), (1280, 6)]);
+    for (w, h) in shapes {
+        for ss in SS {
+            if w % (1 << ss.0) != 0 || h % (1 << ss.1) != 0 {
+                continue;
+            }
+            for wide in [false, true] {
+                for mode in 1..=3u8 {
+                    v.push(DecCase { w, h, ss, wide, k: ((w + h + mode as usize) % 4) as u8, mode });
                 }
             }
         }
@@ -1132,7 +1203,7 @@ pub fn run(tier: Tier) -> Report {
     let mut fc = vec![];
     for (w, h) in size_pairs(tier) {
         {
-            if tier == Tier::Quick && w * h > 1100 && w != h {
+            if tier == Tier::Quick && w * h > 1100 && w != h && !matches!((w, h), (96, 80) | (1280, 54) | (65, 64) | (100, 41)) {
                 continue;
             }
             for op in FOPS {
@@ -1186,7 +1257,7 @@ pub fn replay(case: &Value) -> (bool, String) {
     let g = |k: &str| case[k].as_u64().unwrap() as usize;
     match case["kind"].as_str().unwrap() {
         "c11dec" => {
-            let c = DecCase { w: g("w"), h: g("h"), ss: (case["ss"][0].as_u64().unwrap() as u8, case["ss"][1].as_u64().unwrap() as u8), wide: case["u16"].as_bool().unwrap(), k: g("meta") as u8 };
+            let c = DecCase { w: g("w"), h: g("h"), ss: (case["ss"][0].as_u64().unwrap() as u8, case["ss"][1].as_u64().unwrap() as u8), wide: case["u16"].as_bool().unwrap(), k: g("meta") as u8, mode: case["content"].as_u64().unwrap_or(0) as u8 };
             let mut memo = HashMap::new();
             // replay with the larger padding menu: a superset of both tiers' menus at this size
             if c.wide {
@@ -1207,6 +1278,7 @@ pub fn replay(case: &Value) -> (bool, String) {
                 ss: (c["ss"][0].as_u64().unwrap() as u8, c["ss"][1].as_u64().unwrap() as u8),
                 wide: c["u16"].as_bool().unwrap(),
                 k: c["meta"].as_u64().unwrap() as u8,
+                mode: c["content"].as_u64().unwrap_or(0) as u8,
             }).collect();
             let res = fresh(move || {
                 let mut memo = HashMap::new();
